@@ -339,6 +339,12 @@ func TestRelatedPasswords(t *testing.T) {
 func TestLoginSequences(t *testing.T) {
 	ev.Check(t, "TestLoginSequences", ev.PickN(800, 80000), func(t *rapid.T) {
 		c := hx.GenCreds(hx.Suites12()).Draw(t, "creds")
+		// with one of the library's default suites the caller may leave the suite
+		// list empty (discovery, then the defaults)
+		c.DefaultSuites = hx.IsLibraryDefault(c.Suite) && rapid.Bool().Draw(t, "defaultSuiteList")
+		if c.DefaultSuites {
+			ev.Label("sequence:default-suite-list")
+		}
 		if len(c.Password) == 0 {
 			c.Password = []byte{0x31}
 		}
@@ -418,6 +424,7 @@ func TestLoginSequences(t *testing.T) {
 func TestRandom(t *testing.T) {
 	ev.Check(t, "TestRandom", ev.PickN(1500, 600000), func(t *rapid.T) {
 		c := hx.GenCreds(hx.Suites12()).Draw(t, "creds")
+		c.DefaultSuites = hx.IsLibraryDefault(c.Suite) && rapid.Bool().Draw(t, "defaultSuiteList")
 		pl := payloadLens(c.Suite.Auth)
 		m := Mutation{Kind: rapid.SampledFrom([]string{"password", "kg", "pwprefix", "pwextend", "pwbyte", "flip", "flip", "flip", "status", "statusShort", "tag", "cutPayload", "cutRaw"}).Draw(t, "kind")}
 		m.Step = rapid.SampledFrom([]string{"open", "rakp2", "rakp4"}).Draw(t, "step")
@@ -455,5 +462,5 @@ func TestCoverage(t *testing.T) {
 			need = append(need, fmt.Sprintf("auth%d:pwprefix16-of-%d", a, n))
 		}
 	}
-	ev.RequireLabels(t, 1, append(need, "enumeration-complete", "related-passwords-complete", "sequence:refused-after-earlier-success")...)
+	ev.RequireLabels(t, 1, append(need, "enumeration-complete", "related-passwords-complete", "sequence:refused-after-earlier-success", "sequence:default-suite-list")...)
 }
